@@ -20,6 +20,7 @@
 #include <iora/web/assets.hpp>
 
 #include <algorithm>
+#include <csignal>
 #include <fstream>
 
 using iora::web::Assets;
@@ -46,6 +47,81 @@ static std::string templateJson(const std::optional<std::string_view> &t)
 {
   if (!t) return "{\"st\":\"N\"}";
   return "{\"st\":\"F\",\"b\":" + blobJson(*t) + "}";
+}
+
+// ------------------------------------------------------------------------------- FIFO feeder + blocked-lookup watchdog
+// The tree contains named pipes. A lookup that (wrongly) opens one blocks until a writer appears; the feeder
+// thread keeps trying a non-blocking write-open of every pipe (ENXIO while nobody reads), and the moment a
+// reader is waiting it writes a recognisable token and closes, so the reader sees token + EOF. The watchdog
+// reports a lookup that sits in open()/read() without progress (e.g. reading a pipe nobody feeds) as a record
+// and ends the process; the driver resumes after that name.
+static std::atomic<uint64_t> gProgress{0}, gIdx{0}, gFeeds{0};
+static std::atomic<int> gApi{'s'};
+static std::vector<std::string> gFifos;
+static std::string gFifoToken;
+static std::string gCurName;
+static std::mutex gCurMu;
+static pid_t gMainTid = 0;
+
+static void setCurrent(uint64_t idx, char api, const std::string &name)
+{
+  gIdx.store(idx); gApi.store(api);
+  { std::lock_guard<std::mutex> g(gCurMu); gCurName = name; }
+  gProgress.fetch_add(1);
+}
+static long mainThreadSyscall()
+{
+  char path[64]; snprintf(path, sizeof path, "/proc/self/task/%d/syscall", int(gMainTid));
+  char buf[128] = {0};
+  int fd = (int)syscall(SYS_openat, AT_FDCWD, path, O_RDONLY, 0);
+  if (fd < 0) return -2;
+  ssize_t n = syscall(SYS_read, fd, buf, sizeof buf - 1);
+  syscall(SYS_close, fd);
+  if (n <= 0 || buf[0] < '0' || buf[0] > '9') return -1; // "running" or "-1 ..."
+  return strtol(buf, nullptr, 10);
+}
+static void startGuard(const vf::Args &a)
+{
+  gMainTid = (pid_t)syscall(SYS_gettid);
+  signal(SIGPIPE, SIG_IGN); // a pipe reader (possibly in another harness process on the same tree) may close before the feeder writes
+  if (a.has("fifos")) { std::ifstream in(a.s("fifos")); std::string l; while (std::getline(in, l)) if (!l.empty()) gFifos.push_back(vf::unhex(l)); }
+  gFifoToken = a.s("fifotoken", "VF20|FIFO-TOKEN|");
+  uint64_t stallMs = a.u("stallms", 8000);
+  if (!gFifos.empty())
+    std::thread([]() {
+      vf::shim::tlsFileExempt = true;
+      for (;;)
+      {
+        for (auto &p : gFifos)
+        {
+          int fd = (int)syscall(SYS_openat, AT_FDCWD, p.c_str(), O_WRONLY | O_NONBLOCK | O_CLOEXEC, 0);
+          if (fd < 0) continue;
+          struct stat st;
+          if (syscall(SYS_fstat, fd, &st) == 0 && S_ISFIFO(st.st_mode)) { std::string t = gFifoToken + p + "\n"; (void)!syscall(SYS_write, fd, t.data(), t.size()); gFeeds.fetch_add(1); }
+          syscall(SYS_close, fd);
+        }
+        vf::shim::rawSleepUs(300);
+      }
+    }).detach();
+  std::thread([stallMs]() {
+    vf::shim::tlsFileExempt = true;
+    uint64_t last = gProgress.load(), since = vf::nowNs();
+    for (;;)
+    {
+      vf::sleepMs(50);
+      uint64_t p = gProgress.load(), t = vf::nowNs();
+      if (p != last) { last = p; since = t; continue; }
+      if (t - since < stallMs * 1000000ull) continue;
+      long nr = mainThreadSyscall();
+      if (nr != SYS_openat && nr != SYS_read && nr != SYS_open) { since = t; continue; } // slow, not blocked in the file
+      std::string name; { std::lock_guard<std::mutex> g(gCurMu); name = gCurName; }
+      FILE *f = vf::out().f;
+      fprintf(f, "\n{\"t\":\"hang\",\"i\":%" PRIu64 ",\"api\":\"%c\",\"syscall\":\"%s\",\"stall_ms\":%" PRIu64 ",\"name\":\"%s\"}\n",
+              gIdx.load(), char(gApi.load()), nr == SYS_read ? "read" : "open", stallMs, vf::hex(name).c_str());
+      fflush(f);
+      _exit(0);
+    }
+  }).detach();
 }
 
 // ------------------------------------------------------------------------------- embedded registry
@@ -100,18 +176,20 @@ static int modeLookup(const vf::Args &a)
   else as.reset(new Assets(Assets::fromDirectory(a.s("root"), kind == "fs-perreq")));
   FILE *f = vf::out().f;
   uint64_t reloadEvery = a.u("reload", 0);
-  for (size_t i = 0; i < names.size(); i++)
+  for (size_t i = a.u("from", 0); i < names.size(); i++)
   {
     std::string line = "{\"i\":" + std::to_string(i);
+    setCurrent(i, 's', names[i]);
     try { line += ",\"s\":" + staticJson(as->getStatic(names[i])); }
     catch (const std::exception &e) { line += ",\"s\":{\"st\":\"X\",\"what\":" + vf::jstr(e.what()) + "}"; }
+    setCurrent(i, 't', names[i]);
     try { line += ",\"t\":" + templateJson(as->getTemplate(names[i])); }
     catch (const std::exception &e) { line += ",\"t\":{\"st\":\"X\",\"what\":" + vf::jstr(e.what()) + "}"; }
     line += "}\n";
     fputs(line.c_str(), f);
     if (reloadEvery && (i + 1) % reloadEvery == 0) as->reload();
   }
-  fprintf(f, "{\"t\":\"done\"}\n");
+  fprintf(f, "{\"t\":\"done\",\"fifo_feeds\":%" PRIu64 "}\n", gFeeds.load());
   fflush(f);
   return 0;
 }
@@ -196,6 +274,7 @@ static std::vector<Spec> readSpecs(const std::string &path)
   return v;
 }
 
+static const Spec *gSpecBase = nullptr;
 struct Flavour
 {
   Registry R;
@@ -208,6 +287,7 @@ struct Flavour
   }
   std::string lookup(const Spec &s)
   {
+    setCurrent(uint64_t(&s - gSpecBase), s.api[0], s.name);
     try
     {
       if (s.api == "s") return staticJson(as->getStatic(s.name));
@@ -222,6 +302,7 @@ static int modeSweep(const vf::Args &a)
   std::string root = a.s("root"), ext = a.s("ext");
   gSecret = a.s("secret");
   auto specs = readSpecs(a.s("specs"));
+  gSpecBase = specs.data();
   auto &P = vf::shim::filePolicy();
   P.prefix = a.s("prefix");
   P.onFire = swapToSecret;
@@ -287,6 +368,7 @@ static int modeRace(const vf::Args &a)
   std::string root = a.s("root"), ext = a.s("ext");
   gSecret = a.s("secret");
   auto specs = readSpecs(a.s("specs"));
+  gSpecBase = specs.data();
   uint64_t iters = a.u("iters", 2000);
   vf::Rng rng(a.u("seed", 1), 0xC20);
   FILE *f = vf::out().f;
@@ -354,9 +436,12 @@ int main(int argc, char **argv)
 {
   vf::Args a(argc, argv);
   std::string mode = a.s("mode", "lookup");
-  if (mode == "lookup") return modeLookup(a);
-  if (mode == "sweep") return modeSweep(a);
-  if (mode == "race") return modeRace(a);
-  fprintf(stderr, "unknown mode\n");
-  return 3;
+  startGuard(a);
+  int rc = 3;
+  if (mode == "lookup") rc = modeLookup(a);
+  else if (mode == "sweep") rc = modeSweep(a);
+  else if (mode == "race") rc = modeRace(a);
+  else fprintf(stderr, "unknown mode\n");
+  fflush(nullptr);
+  _exit(rc); // the detached feeder/watchdog threads still use globals: skip static destruction
 }
